@@ -6,6 +6,8 @@ DOC = {
     'not_decided': ['horizon arithmetic for every history', 'cache budget races'],
 }
 
+WITNESSES = ['C02W1Fail', 'C02W1Twin']
+
 
 def rules(ctx):
     S.c02_r1_register_atomic(ctx)
